@@ -500,7 +500,7 @@ func (m *Machine) Apply(a *Action) (Outcome, error) {
 	case "regToken":
 		tok := make([]byte, 32)
 		copy(tok, []byte{0xaa, byte(a.N), byte(a.N >> 8), 0x01})
-		return fromCall(c.Precompile(m.caller(a.Caller), sim.AssetsPrecompileAddr, c.AssetsABI(), "registerToken", uint32(a.Lz), tok, uint8(6), fmt.Sprintf("tok-%d", a.N), "probe", fmt.Sprintf("TOK%d,Ethereum,8%s", a.N, []string{"", ",0", ",7", ",10", ",0,0x01"}[a.Ident%5])))
+		return fromCall(c.Precompile(m.caller(a.Caller), sim.AssetsPrecompileAddr, c.AssetsABI(), "registerToken", uint32(a.Lz), tok, regTokenDecimals(a), fmt.Sprintf("tok-%d", a.N), "probe", fmt.Sprintf("TOK%d,Ethereum,8%s", a.N, []string{"", ",0", ",7", ",10", ",0,0x01"}[a.Ident%5])))
 	case "updToken":
 		as := m.W.Cfg.Assets[a.Asset]
 		return fromCall(c.Precompile(m.caller(a.Caller), sim.AssetsPrecompileAddr, c.AssetsABI(), "updateToken", uint32(as.LzID), pad32b(as.AddrBytes()), "probe-"+fmt.Sprint(a.N)))
@@ -618,3 +618,12 @@ func maxInt(a, b int) int {
 func IsNativeAssetID(id string) bool { return id == assetstypes.ExocoreAssetID }
 
 func encodingCodec() codec.Codec { return sim.Codec() }
+
+// regTokenDecimals: 6 unless the action asks for something else (values above the maximum the
+// assets module accepts make the registration fail after the oracle has been told)
+func regTokenDecimals(a *Action) uint8 {
+	if a.Dec > 0 {
+		return uint8(a.Dec)
+	}
+	return 6
+}
